@@ -40,7 +40,7 @@ type concOp struct {
 	n    int
 }
 
-var concPrivateKinds = []string{"parse", "parse", "parsetz", "parsesame", "parsequery", "parseexpr", "print", "quotestr", "quoteident", "fmtdur", "parsedur", "sanitize", "scan", "needsquotes"}
+var concPrivateKinds = []string{"parse", "parse", "parsetz", "parsenul", "rewritewild", "parsesame", "parsequery", "parseexpr", "print", "quotestr", "quoteident", "fmtdur", "parsedur", "sanitize", "scan", "needsquotes"}
 var concSharedKinds = []string{"s.string", "s.string", "s.clone", "s.clonerewrite", "s.walk", "s.eval", "s.reduce", "s.reducenow", "s.rewritefields", "s.columns", "s.privs", "s.names", "s.condexpr", "s.evaltype", "s.measurements"}
 
 func drawConcOps(r *rand.Rand, n int, sharedText string) []concOp {
@@ -65,6 +65,31 @@ func drawConcOps(r *rand.Rand, n int, sharedText string) []concOp {
 			op.arg = randSelectText(r, 0)
 		case "parsesame":
 			op.arg = sharedText
+		case "parsenul":
+			// a NUL after white space is swallowed by the scanner: the statement still parses, and it parses
+			// to the same statement whatever other scanners do at the same time (round-4 seeded change C17-2
+			// handed a pooled read buffer back at the first NUL)
+			t := randSelectText(r, 0)
+			if i := strings.Index(t, " "); i >= 0 {
+				k := strings.Count(t, " ")
+				j, at := 0, r.Intn(k)
+				for p := 0; p < len(t); p++ {
+					if t[p] == ' ' {
+						if j == at {
+							i = p
+							break
+						}
+						j++
+					}
+				}
+				t = t[:i+1] + "\x00" + t[i+1:]
+			}
+			op.arg = t
+		case "rewritewild":
+			// wildcard calls of every type family on a private statement, against a schema with every field type
+			// (round-4 seeded change C17-1 kept the supported-type sets in package-level maps, and one family
+			// deleted from them)
+			op.arg = "SELECT " + pick(r, []string{"mean(*)", "holt_winters(*, 10, 4)", "holt_winters_with_fit(*, 10, 4)", "sum(*)", "max(*)", "count(*)", "first(*)", "median(/./)", "mean(*), max(*)", "count(*), sum(*)"}) + " FROM m"
 		case "parsetz":
 			// zone names in several spellings: each parse answers for its own spelling, whatever was parsed
 			// before or at the same time (seeded changes C17-3 / C17-6 kept looked-up zones in a package-level table)
@@ -93,7 +118,17 @@ func runConcOp(op concOp, shared *influxql.SelectStatement) (out string) {
 	}()
 	switch op.kind {
 	// ---- private data ----
-	case "parse", "parsesame", "parsetz":
+	case "rewritewild":
+		st, err := influxql.ParseStatement(op.arg)
+		if err != nil {
+			return "err: " + err.Error()
+		}
+		rw, err := st.(*influxql.SelectStatement).RewriteFields(stubMapper{})
+		if err != nil {
+			return "err: " + err.Error()
+		}
+		return rw.String()
+	case "parse", "parsesame", "parsetz", "parsenul":
 		st, err := influxql.ParseStatement(op.arg)
 		if err != nil {
 			return "err: " + err.Error()
